@@ -10,7 +10,7 @@ import rewriters as R
 class C03(Prop):
     id = "C03"
     driver = "Compose"
-    lean_modules = ["Pfb.C03.Props", "Pfb.C03.Lines"]
+    lean_modules = ["Pfb.C03.Props", "Pfb.C03.Lines", "Pfb.C03.Idem"]
     theorems = [
         "Pfb.C03.C03_future_first",
         "Pfb.C03.C03_future_joins_future_block",
@@ -25,6 +25,17 @@ class C03(Prop):
         "Pfb.C03.C03_no_ambiguity",
         "Pfb.C03.C03_remove_not_ambiguous",
         "Pfb.C03.ranges_sorted",
+        "Pfb.C03.C03_shadow_idem",
+        "Pfb.C03.C03_shadow_perm",
+        "Pfb.C03.fromImportsShadow_free",
+        "Pfb.C03.fromImportsShadow_of_free",
+        "Pfb.C03.C03_reformat_idem_blocks",
+        "Pfb.C03.c11Fmt_ok",
+        "Pfb.C03.C03_reformat_idem_text",
+        "Pfb.C03.C03_tidy_second_pass_noop",
+        "Pfb.C03.addImport_of_alreadyPresent",
+        "Pfb.C03.C03_add_then_present",
+        "Pfb.C03.C03_add_idem",
     ]
     anchors = [
         ("lib/python/pyflyby/_imports2s.py", "SourceToSourceFileImportsTransformation.select_import_block_by_closest_prefix_match"),
@@ -126,12 +137,14 @@ class C03(Prop):
         if "trace" not in obs or R.layout_family(case["text"]):
             return []
         b = R.block_requests(case, obs["trace"])
-        return b + R.text_requests(case, obs["trace"]) if b else []
+        return b + R.text_requests(case, obs["trace"]) + R.reparse_requests(case, obs["trace"]) if b else []
 
     def compare(self, case, obs, resps):
         d = R.block_compare(case, obs["trace"], resps[:1])
         if d is None and len(resps) > 1:
             d = R.text_compare(case, obs["trace"], resps[1:2])
+        if d is None and len(resps) > 2:
+            d = R.reparse_compare(case, obs["trace"], resps[2:3])
         return d
 
     def oracle(self, case, obs):
